@@ -109,6 +109,8 @@ def fold_rule(prog, rep):
         seed_ok = True
     if any(t in (f"{acc} = [{ev}[0]]", f"{acc} = {ev}[:1]") for t in pre_txt) and it == f"{ev}[1:]":
         seed_ok = True
+    if any(t in (f"{acc} = [{ev}.pop(0)] if {ev} else []", f"{acc} = [] if not {ev} else [{ev}.pop(0)]") for t in pre_txt) and it == ev:
+        seed_ok = True
     if not seed_ok:
         # tolerate formatting: look structurally
         for s in pre:
